@@ -1047,7 +1047,12 @@ class ParserField:
                     return unprovided
 
             discriminator = value.get(self.discriminator)
-            if discriminator in self.discriminator_map:
+            try:
+                matched = discriminator in self.discriminator_map
+            except TypeError:
+                # an unhashable value (list / dict) cannot be one of the declared constants
+                matched = False
+            if matched:
                 type = self.discriminator_map[discriminator]
                 # directly assign type instead parse it in a Logical context
             else:
